@@ -23,8 +23,11 @@ class _PrettyR:
     def __init__(self, R):
         self._R = R
 
-    def add(self, rule, body, instance, ok, where='', detail=''):
-        return self._R.add(rule, body, instance, ok, where, pretty(body, detail))
+    def add(self, rule, body, instance, ok, where='', detail='', undecided=False):
+        return self._R.add(rule, body, instance, ok, where, pretty(body, detail), undecided=undecided)
+
+    def undecided(self, rule, body, instance, where='', detail=''):
+        return self._R.undecided(rule, body, instance, where, pretty(body, detail))
 
     def __getattr__(self, k):
         return getattr(self._R, k)
